@@ -132,6 +132,30 @@ pub fn gen(tier: &str, seed: u64, out: &mut dyn FnMut(Value)) {
             sample.push(p);
         }
     }
+    // long paths: up to 100 segments (nothing may be dropped), quoted and unquoted
+    for n in [8usize, 16, 31, 32, 33, 40, 63, 64, 65, 100] {
+        let plain: String = (0..n).map(|i| format!(".n{i}")).collect();
+        let quoted: String = (0..n).map(|i| if i % 3 == 0 { format!(".\"q {i}\"") } else { format!(".n{i}") }).collect();
+        out(json!({"op": "xpath", "s": plain, "tag": "long paths", "nt": true}));
+        out(json!({"op": "xpath", "s": quoted, "tag": "long paths", "nt": true}));
+    }
+    // equality: two paths of the same length differing in exactly one character, at every position, for
+    // lengths 2..40 (word-wise or chunk-wise comparisons that skip a remainder show here); and each path with itself
+    for len in 2usize..=40 {
+        let body: Vec<char> = (0..len - 1).map(|i| if i % 5 == 4 { '.' } else { (b'a' + ((i * 7 + len) % 26) as u8) as char }).collect();
+        let body: Vec<char> = body.iter().enumerate().map(|(i, c)| if *c == '.' && (i + 1 == body.len() || i == 0) { 'x' } else { *c }).collect();
+        let p: String = std::iter::once('.').chain(body.iter().cloned()).collect();
+        out(json!({"op": "xpath_pair", "a": p, "b": p, "tag": "pair: one character apart", "nt": true}));
+        for i in 0..body.len() {
+            if body[i] == '.' {
+                continue;
+            }
+            let mut b2 = body.clone();
+            b2[i] = if body[i] == 'q' { 'r' } else { 'q' };
+            let q: String = std::iter::once('.').chain(b2.iter().cloned()).collect();
+            out(json!({"op": "xpath_pair", "a": p, "b": q, "tag": "pair: one character apart", "nt": true}));
+        }
+    }
     // equality / hash on all pairs of a sample that contains near-duplicates
     let mut pool: Vec<String> = sample.iter().take(if tier == "thorough" { 120 } else { 60 }).cloned().collect();
     let extra: Vec<String> = pool.iter().take(20).map(|p| format!("{p}.x")).collect();
